@@ -169,6 +169,9 @@ struct WlanEngine : Engine {
         // replays of old-key frames after a rekey: re-insert earlier data frames of a station at the end
         { std::vector<TapRec> extra; for (auto& r : w.tap) if (r.kind == "data" && r.bad.empty() && cfg.chance(0.03)) { TapRec x = r; x.t = w.q.now + 1000; x.kind = "data-replayed"; extra.push_back(x); w.faults["fault.replayed_old_frame"]++; } for (auto& x : extra) { x.ord = ++w.ord; w.tap.push_back(x); } }
         std::stable_sort(w.tap.begin(), w.tap.end(), [](const TapRec& a, const TapRec& b) { return a.t != b.t ? a.t < b.t : a.ord < b.ord; });
+        // the application withdraws the WEP password of a network in mid-capture (WEPDecrypter::remove_password) and may supply it again later
+        { Rng wr = root.fork("wepremove"); for (auto& b : w.bss) if (b.cipher <= WEP104 && !w.tap.empty() && wr.chance(0.25)) { size_t at = wr.below(w.tap.size()); TapRec x; x.t = w.tap[at].t; x.ord = 0; x.kind = "wep-remove"; x.bss = b.id; x.sta = -1; x.kid = -1; w.tap.insert(w.tap.begin() + at, x); w.faults["fault.wep_password_removed"]++;
+                if (wr.chance(0.4)) { size_t at2 = at + 1 + wr.below(w.tap.size() - at); TapRec y = x; y.t = w.tap[at2 - 1].t; y.kind = "wep-add"; w.tap.insert(w.tap.begin() + at2, y); } } }
         for (auto& b : w.bss) { KV k; k.set("bss", b.id).set("bssid", Bytes(b.bssid.b, b.bssid.b + 6)).set("ssid", b.ssid).set("pass", [&]() { std::string q = b.pass; for (char& c : q) if (c == ' ') c = '_'; return q; }()).set("cipher", b.cipher).set("wepkey", b.wepkey).set("unreg", b.unreg ? 1 : 0); p.truth.push_back("bss " + k.line()); }
         for (auto& s : stas) { KV k; k.set("sta", s->id).set("bss", s->b.id).set("mac", Bytes(s->mac.b, s->mac.b + 6)).set("wrongpass", s->pmk_sta != s->b.pmk ? 1 : 0); p.truth.push_back("sta " + k.line()); }
         for (auto& kr : w.keys) { KV k; k.set("key", kr.id).set("bss", kr.bss).set("mac", Bytes(kr.sta.b, kr.sta.b + 6)).set("ptk", kr.ptk).set("cipher", kr.cipher).set("an", Bytes(kr.anonce, kr.anonce + 32)).set("sn", Bytes(kr.snonce, kr.snonce + 32)); p.truth.push_back("key " + k.line()); }
@@ -202,10 +205,13 @@ struct WlanEngine : Engine {
         if (cfgmode == 2) for (auto& kv : keys) if (!bss[kv.second.bss].unreg) direct_key[fmt("%d|", kv.second.bss) + hex(kv.second.sta.b, 6)] = kv.first;
         // ---- reference handshake tracker B5
         std::map<std::string, RefSess> ref; std::set<std::string> ap_known; uint64_t sig = 0xC09; int idx = -1; bool judged = false; int64_t last_t = 0; std::string order_sig;
-        std::set<int> tap_seen_nonces_for_kid;
+        std::set<int> tap_seen_nonces_for_kid; std::set<int> wep_removed;
         for (auto& sl : p.steps) {
             ++idx; KV k(sl); Bytes frame = k.bytes("f"); std::string kind = k.str("k"); int b_id = (int)k.num("bss"); int kid = (int)k.num("kid"); std::string bad = k.str("bad"); if (bad == "-") bad = ""; Bytes plain = k.bytes("pt"); last_t = k.num("t");
-            const Bss& b = bss[b_id]; Frame f = parse_dot11(frame.data(), frame.size());
+            const Bss& b = bss[b_id];
+            if (kind == "wep-remove") { wep.remove_password(HWAddress<6>(b.bssid.b)); wep_removed.insert(b_id); st.inc("probe.op.wep_remove"); continue; }
+            if (kind == "wep-add") { wep.add_password(HWAddress<6>(b.bssid.b), std::string(b.wepkey.begin(), b.wepkey.end())); wep_removed.erase(b_id); st.inc("probe.op.wep_add"); continue; }
+            Frame f = parse_dot11(frame.data(), frame.size());
             sig = mix64(sig, fnv1a(kind) ^ fnv1a(bad.substr(0, bad.find(':'))));
             // reference: beacons teach the BSSID (cfgmode 0), EAPOL frames drive the tracker
             if (kind == "beacon") ap_known.insert(hex(b.bssid.b, 6));
@@ -248,7 +254,7 @@ struct WlanEngine : Engine {
             // expected: may it / must it decrypt
             const uint8_t* sta = f.ok ? (f.from_ds ? f.a1 : f.a2) : 0; bool may = false, must = false; std::string why;
             if (bad.empty() && f.ok && f.protected_) {
-                if (is_wep_bss) { may = must = true; }
+                if (is_wep_bss) { may = must = !wep_removed.count(b_id); }
                 else if (kid >= 0 && keys.count(kid)) {
                     // (the completeness half below is only demanded for parseable plaintexts)
                     const KeyRec& kr = keys[kid];
@@ -283,7 +289,7 @@ struct WlanEngine : Engine {
                 if (!bad.empty()) st.inc("probe.bad_frame_left_undecrypted." + bad.substr(0, bad.find(':')));
             }
             // learned keys equal the reference PTK (strict, learned from handshakes)
-            if (strict && cfgmode != 2 && !is_wep_bss && got && kid >= 0) { bool found = false; for (auto& kv : wpa.get_keys()) { const Crypto::WPA2::SessionKeys::ptk_type& pt = kv.second.get_ptk(); if (pt.size() >= 64 && memcmp(pt.data(), keys[kid].ptk.data(), 64) == 0) found = true; } st.inc("chk.learned_ptk"); if (!found) return Verdict::bad("wlan:learned-ptk-differs", "a frame decrypted but get_keys() does not hold the reference PTK", idx); }
+            if (strict && cfgmode != 2 && !is_wep_bss && got && kid >= 0) { bool found = false; for (auto& kv : wpa.get_keys()) { const Crypto::WPA2::SessionKeys::ptk_type& pt = kv.second.get_ptk(); if (pt.size() >= 64 && memcmp(pt.data(), keys[kid].ptk.data(), 64) == 0) { found = true; if (kv.second.uses_ccmp() != (keys[kid].cipher == CCMP)) return Verdict::bad("wlan:learned-key-cipher-flag", "the learned session keys report the wrong cipher through uses_ccmp()", idx); } } st.inc("chk.learned_ptk"); if (!found) return Verdict::bad("wlan:learned-ptk-differs", "a frame decrypted but get_keys() does not hold the reference PTK", idx); }
         }
         // callbacks name the right networks
         if (strict) for (auto& c : cb.hs) { bool okc = false; for (auto& kv : keys) { const KeyRec& kr = kv.second; std::string want = bss[kr.bss].ssid + "|" + HWAddress<6>(bss[kr.bss].bssid.b).to_string() + "|" + HWAddress<6>(kr.sta.b).to_string(); if (want == c) okc = true; } st.inc("chk.callback"); if (!okc) return Verdict::bad("wlan:handshake-callback-wrong", "handshake_captured callback reported " + c, idx); }
